@@ -200,8 +200,12 @@ fn stream_transparency(ctx: &Ctx, t: &mut Tape<'_>, r: &mut Report) -> CheckResu
     r.d(|| format!("{ty} key={} iv={} n={n} j={j} delta={} cuts={} / {}", tape::hex_short(&key), tape::hex_short(&iv), tape::hex_short(&delta), describe_cuts(&cuts1), describe_cuts(&cuts2)));
     let mut a = f.make(Ctor::New, &key, &iv).expect("harness: ctor");
     let mut b = f.make(Ctor::New, &key, &iv).expect("harness: ctor");
-    let p1 = run_stream(a.as_mut(), &ct, &cuts1, &[ApplyKind::Inout; 4], (0, 0)).map_err(|v| with_sig("C15", &ty, v))?;
-    let p2 = run_stream(b.as_mut(), &ct2, &cuts2, &[ApplyKind::InPlace; 4], (0, 0)).map_err(|v| with_sig("C15", &ty, v))?;
+    let (Some(p1), Some(p2)) = (run_stream_opt(a.as_mut(), &ct, &cuts1, &[ApplyKind::Inout; 4], (0, 0)), run_stream_opt(b.as_mut(), &ct2, &cuts2, &[ApplyKind::InPlace; 4], (0, 0))) else {
+        // a refused in-range request is C11's business, not an error-propagation question
+        r.label("refused");
+        r.nontrivial = false;
+        return Ok(());
+    };
     let d = xor(&p1, &p2);
     let mut want = vec![0u8; n];
     want[j..j + dl].copy_from_slice(&delta);
@@ -258,12 +262,17 @@ fn keystream_independence(ctx: &Ctx, t: &mut Tape<'_>, r: &mut Report) -> CheckR
     let mut a = f.make(Ctor::New, &key, &iv).expect("harness: ctor");
     let mut b = f.make(Ctor::New, &key, &iv).expect("harness: ctor");
     toy::log_start();
-    let o1 = run_stream(a.as_mut(), &m1, &cuts, &[ApplyKind::Inout; 4], (0, 0));
+    let o1 = run_stream_opt(a.as_mut(), &m1, &cuts, &[ApplyKind::Inout; 4], (0, 0));
     let l1 = toy::log_take();
     toy::log_start();
-    let o2 = run_stream(b.as_mut(), &m2, &cuts, &[ApplyKind::Inout; 4], (0, 0));
+    let o2 = run_stream_opt(b.as_mut(), &m2, &cuts, &[ApplyKind::Inout; 4], (0, 0));
     let l2 = toy::log_take();
-    let (o1, o2) = (o1.map_err(|v| with_sig("C15", &ty, v))?, o2.map_err(|v| with_sig("C15", &ty, v))?);
+    ensure!(o1.is_some() == o2.is_some(), format!("C15/verdict-depends-on-data/{ty}"), "whether the request is accepted depends on the data");
+    let (Some(o1), Some(o2)) = (o1, o2) else {
+        r.label("refused");
+        r.nontrivial = false;
+        return Ok(());
+    };
     ensure_eq_bytes!(xor(&o1, &m1), xor(&o2, &m2), format!("C15/keystream-depends-on-data/{ty}"), "keystream recovered from two different messages");
     ensure!(l1 == l2, format!("C15/cipher-inputs-depend-on-data/{ty}"), "the blocks fed to the cipher differ between the two messages");
     ensure!(a.core_iv_state() == b.core_iv_state() && a.core_block_pos() == b.core_block_pos(), format!("C15/state-depends-on-data/{ty}"), "state after processing depends on the data");
